@@ -18,7 +18,7 @@ INFO = {
                    "trailing prefix bits, length prefixes past the end; the decoder re-derives non-wire lengths with the same "
                    "per-proof scaling as the constructing code; (E) equality of every message type covers all fields. That "
                    "each primitive writes the right bytes (endianness) and re-encoding of accepted non-honest strings beyond "
-                   "these refusals are NOT decided.",
+                   "An element count read from the wire reaches take / with_capacity / decode_fixlen_items as read (R-C07.K), and the two reviewed identities of R-C07.L are pinned to the reviewed formula. Beyond the canonical guards these refusals are NOT decided.",
     "trusted_base": ["rustc type checker and MIR construction (nightly)", "sa/sym.py symbolic byte counting, sa/poly.py normal forms",
                      "two reviewed length identities (bitvec packing, prefix length invariant) listed in rules/c07.py"],
     "assumptions": ["helper summaries: encode_fieldvec / encode_fixlen_items / encode_u{8,16,32}_items write one item encoding per element (+ prefix)"],
